@@ -3,6 +3,7 @@ package httpsender
 import (
 	"bytes"
 	"context"
+	"encoding/json"
 	"io"
 	"net/http"
 	"net/url"
@@ -86,6 +87,57 @@ func VerifC10_HTTPSenderWire() {
 			transport, id := peer.SplitAddr(gaddrs[i])
 			verif_Assert(id == pid, "every address on the wire carries the publisher's ID")
 			verif_Assert(transport != nil && transport.Equal(addrs[i]), "and splits back into the announced address")
+		}
+	}
+}
+
+// C10 (JSON path of the HTTP sender): the same message sent through SendJson
+// and through Send arrives with the same CID, addresses (publisher ID
+// appended) and extra data — the message's own extra data unless the sender
+// was configured with some. JSON itself is the model codec
+// (decode(encode(x)) = x); what is decided is what the sender puts into it.
+func VerifC10_HTTPSenderJSON() {
+	pid, err := peer.IDFromBytes([]byte{0x00, 0x02, 0xaa, 0x01})
+	verif_Assume(err == nil)
+	u, perr := url.Parse("http://a.example")
+	verif_Assume(perr == nil)
+	rt := &c10rt{bodies: map[string][]byte{}, status: 200}
+	opts := []Option{WithClient(&http.Client{Transport: rt})}
+	var configured []byte
+	if verif_Bool("senderHasExtraData") {
+		configured = verif_Bytes("senderExtra", 2)
+		opts = append(opts, WithExtraData(configured))
+	}
+	s, err := New([]*url.URL{u}, pid, opts...)
+	verif_Assume(err == nil)
+	c, cerr := cid.Cast([]byte{0x01, 0x55, 0x00, 0x01, verif_U8("cidDigest")})
+	verif_Assume(cerr == nil)
+	msg := message.Message{Cid: c}
+	if verif_Bool("messageHasExtraData") {
+		msg.ExtraData = verif_Bytes("messageExtra", 2)
+	}
+	if verif_Bool("hasAddress") {
+		a, aerr := multiaddr.NewMultiaddr("/ip4/8.8.4.4/tcp/80")
+		verif_Assume(aerr == nil)
+		msg.SetAddrs([]multiaddr.Multiaddr{a})
+	}
+	wantExtra := msg.ExtraData
+	if len(configured) != 0 {
+		wantExtra = configured
+	}
+	verif_Assert(s.SendJson(context.Background(), msg) == nil, "sending JSON succeeds")
+	var viaJSON message.Message
+	verif_Assert(json.Unmarshal(rt.bodies["a.example"], &viaJSON) == nil, "the JSON body decodes")
+	verif_Assert(s.Send(context.Background(), msg) == nil, "sending CBOR succeeds")
+	var viaCBOR message.Message
+	verif_Assert(viaCBOR.UnmarshalCBOR(bytes.NewReader(rt.bodies["a.example"])) == nil, "the CBOR body decodes")
+	verif_Reach("both decoded")
+	verif_Assert(viaJSON.Cid == c && viaCBOR.Cid == c, "both carry the announced CID")
+	verif_Assert(bytes.Equal(viaJSON.ExtraData, wantExtra) && bytes.Equal(viaCBOR.ExtraData, wantExtra), "both carry the configured extra data, or the message's own when none is configured")
+	verif_Assert(len(viaJSON.Addrs) == len(msg.Addrs) && len(viaCBOR.Addrs) == len(msg.Addrs), "both carry every address")
+	for i := range viaJSON.Addrs {
+		if i < len(viaCBOR.Addrs) {
+			verif_Assert(bytes.Equal(viaJSON.Addrs[i], viaCBOR.Addrs[i]), "the JSON and CBOR forms carry the same address bytes (publisher ID appended)")
 		}
 	}
 }
